@@ -69,9 +69,9 @@ def monitorSends (s : St) (opKind : String) (impl : List String) : St × List St
         let n := acc.1.sentCount w + 1
         let st := { acc.1 with sentCount := fun k => if k = w then n else acc.1.sentCount k }
         -- each known key is tied to its own history: stale torrent object = the application of the event of a split
-        -- request whose CreateTorrent saw the blob cached; eviction = a completion notice applied after the eviction
+        -- request whose CreateTorrent saw the blob cached; eviction = the waiters of a completed torrent answered (completion notice, or idle removal of the complete torrent) after the eviction
         let key := if w ∈ acc.1.staleW ∧ opKind = "apply" then "success-from-stale-torrent-object"
-          else if opKind = "notice" ∧ (match acc.1.wtor.find? (·.1 = w) with | some (_, h) => decide (h ∈ acc.1.evicted) | none => false) = true then "success-after-eviction"
+          else if (opKind = "notice" ∨ opKind = "tick") ∧ (match acc.1.wtor.find? (·.1 = w) with | some (_, h) => decide (h ∈ acc.1.evicted) | none => false) = true then "success-after-eviction"
           else "success-without-blob"
         let pf := (if n = 2 then [s!"side=impl key=waiter-answered-twice {wt} got a second result ({r})"] else []) ++
                   (if r = "ok" ∧ ca = "0" then [s!"side=impl key={key} {wt} was told ok while the blob is not in the cache"] else [])
